@@ -19,12 +19,16 @@ Section Spec.
 
   Definition is_change (s : N) : Prop := s = w_change0 w \/ s = w_change1 w.
 
-  (* value / postage bound of the recipient output *)
-  Definition target_clause (rv : N) : Prop :=
+  Definition change_dust : N := N.max (dust (w_change0 w)) (dust (w_change1 w)).
+
+  (* value / postage bound of the recipient output; [vs] is the estimated signed size of the
+     transaction, "one output's fee" is what adding a 43-vbyte output to it would cost *)
+  Definition one_output_fee (vs : N) : N := fee (vs + TB_ADDITIONAL_OUTPUT_VBYTES) - fee vs.
+  Definition target_clause (vs rv : N) : Prop :=
     match w_target w with
-    | TValue t => t <= rv
-    | TPostage => rv <= TB_MAX_POSTAGE + fee TB_ADDITIONAL_OUTPUT_VBYTES
-    | TExact p => rv <= p + fee TB_ADDITIONAL_OUTPUT_VBYTES
+    | TValue t => t <= rv /\ rv <= t + change_dust + one_output_fee vs
+    | TPostage => rv <= TB_MAX_POSTAGE + one_output_fee vs
+    | TExact p => rv <= p + change_dust + one_output_fee vs
     end.
 
   (* First-in-first-out: the sats of the inputs, in order, fill the outputs in order and the
@@ -60,6 +64,33 @@ Section Spec.
          (id, off) <> (w_out_id w, w_out_off w) ->
          id = w_out_id w /\ total_in before + off < total_out pre) /\
       (forall o, In o outs -> dust (fst o) <= snd o) /\
-      target_clause rv /\
+      target_clause (vsize (N.of_nat (length inputs)) (map fst outs)) rv /\
       total_in inputs = total_out outs + fee (vsize (N.of_nat (length inputs)) (map fst outs)).
+
+  (* Well-formed call of the builder (hypothesis of the never-panics theorem):
+     - the wallet is a possible wallet: amounts is a map (no outpoint twice), every output has
+       at least one sat, the total is at most the 21e14 sat that can exist, inscriptions sit at
+       offsets that can exist;
+     - the two change scripts are addresses (the type of `change: [Address; 2]`);
+     - an OP_RETURN recipient (a burn) is given an explicit amount of at least one sat
+       (`Target::ExactPostage(1 sat)` in `ord wallet burn`): with `Target::Postage` its dust
+       limit, zero, would be the requested value;
+     - the requested amount fits an `Amount`, i.e. u64;
+     - the fee function behaves like rounding a rate times a size: monotone, and the fee of a
+       sum is at most the sum of the fees plus one sat of rounding; its values fit u64. *)
+  Definition MAX_SUPPLY : N := 2100000000000000.
+  Definition target_amount : option N :=
+    match w_target w with TPostage => None | TExact a => Some a | TValue a => Some a end.
+  Record WalletOK : Prop := {
+    ok_nodup : NoDup (map fst (w_amounts w));
+    ok_pos : forall id v, In (id, v) (w_amounts w) -> 0 < v;
+    ok_total : sum_map snd (w_amounts w) <= MAX_SUPPLY;
+    ok_inscr : forall o off, In (o, off) (w_inscr w) -> off <= MAX_SUPPLY;
+    ok_change0 : is_address (w_change0 w) = true;
+    ok_change1 : is_address (w_change1 w) = true;
+    ok_burn : is_op_return (w_recipient w) = true -> exists a, target_amount = Some a /\ 1 <= a;
+    ok_amount : forall a, target_amount = Some a -> a <= U64_MAX;
+    ok_fee_mono : forall a b, a <= b -> fee a <= fee b;
+    ok_fee_sub : forall a b, fee (a + b) <= fee a + fee b + 1;
+    ok_fee_u64 : forall a, fee a <= U64_MAX }.
 End Spec.
